@@ -3,6 +3,8 @@ import Driver.Layout
 import Driver.Values
 import Driver.Wire
 import Driver.Namespace
+import Driver.Reader
+import Driver.Rules
 /-! Correspondence driver: `lake env lean --run Driver/Main.lean <suite>`; one JSON case per input line,
     one JSON outcome per output line (`{"id":…, …}` or `{"id":…,"err":…}`). -/
 open Lean
@@ -16,6 +18,8 @@ def dispatch (suite : String) (j : Json) : Except String Json :=
   | "values" => DriverValues.handle j
   | "wire" => DriverWire.handle j
   | "ns" => DriverNs.handle j
+  | "text" => DriverReader.handle j
+  | "rules" => DriverRules.handle j
   | s => throw s!"unknown suite {s}"
 
 partial def loop (suite : String) (h : IO.FS.Stream) (out : IO.FS.Stream) : IO Unit := do
